@@ -155,6 +155,10 @@ class SymGen(object):
         """precondition (recorded as a fact); cond is an S-style boolean"""
         CTX.facts.append(bz(cond.z if isinstance(cond, SBool) else cond))
 
+    def assume_sorted(self, arr, strict=True):
+        """precondition: the one-dimensional array is (strictly) ascending"""
+        sym.sorted_facts(arr, strict)
+
     def choice(self, name, options):
         """a finite concrete choice: enumerated by path forking"""
         n = len(options)
@@ -211,6 +215,12 @@ class ConcGen(object):
 
     def assume(self, cond):
         if not bool(cond):
+            raise PreconditionFailed()
+
+    def assume_sorted(self, arr, strict=True):
+        a = _np.asarray(arr, float)
+        d = _np.diff(a)
+        if (strict and not _np.all(d > 0)) or (not strict and not _np.all(d >= 0)):
             raise PreconditionFailed()
 
     def choice(self, name, options):
@@ -361,6 +371,33 @@ class SymSpec(object):
 
     def count_where_axes(self, axes, pred):
         return sym.count_atom(tuple(axes), lambda idx: self.z(pred(idx)))
+
+    def length_along(self, arr, d):
+        return arr.axes[d].size
+
+    def loop_indices(self, arr):
+        """the generic index of the (single) symbolic loop that ran over arr's positions"""
+        return [SNum(FIN, l[0], is_int=True, is_numpy=False) for l in CTX.loops if l[0] is not None]
+
+    def two_generic(self, arr, dim):
+        """one generic pair of indices for the two dimensions of a 3-d array other than dim"""
+        axes = [ax for d, ax in enumerate(arr.axes) if d != dim]
+        i = tuple(ax.fresh_index("q") for ax in axes)
+        self.idx_tuples.append((tuple(axes), i))
+        return [(SNum(FIN, i[0], is_int=True, is_numpy=False), SNum(FIN, i[1], is_int=True, is_numpy=False))]
+
+    def series_along(self, arr, dim, a, b):
+        """the one-dimensional series arr[a, :, b] (dim = 1) or arr[:, a, b] (dim = 0)"""
+        g = arr._snapshot()
+        za, zb = _zidx(a), _zidx(b)
+        if dim == 1:
+            return SArr((arr.axes[1],), lambda j: g((za, j[0], zb)), arr.dtype)
+        return SArr((arr.axes[0],), lambda j: g((j[0], za, zb)), arr.dtype)
+
+    def window(self, series, coords, pred):
+        """the elements of series whose coordinate satisfies pred"""
+        cg = coords._snapshot()
+        return SArr(series.axes, series._snapshot(), series.dtype, lambda j: self.z(pred(cg(j))), None)
 
     def count_where(self, arr, pred):
         """number of (selected) index points of arr's domain where pred(i) holds"""
@@ -546,6 +583,20 @@ class ConcSpec(object):
     def count_where(self, arr, pred):
         a = _np.asarray(arr)
         return sum(1 for i in _np.ndindex(*a.shape) if bool(pred(i)))
+
+    def length_along(self, arr, d): return _np.shape(arr)[d]
+    def loop_indices(self, arr): return list(range(len(arr)))
+
+    def two_generic(self, arr, dim):
+        sh = [n for d, n in enumerate(_np.shape(arr)) if d != dim]
+        return [(a, b) for a in range(sh[0]) for b in range(sh[1])]
+
+    def series_along(self, arr, dim, a, b):
+        return _np.asarray(arr)[a, :, b] if dim == 1 else _np.asarray(arr)[:, a, b]
+
+    def window(self, series, coords, pred):
+        keep = _np.array([bool(pred(c)) for c in _np.asarray(coords, float)], bool)
+        return _np.asarray(series)[keep]
 
     def sum_where(self, arr, term):
         a = _np.asarray(arr)
